@@ -1199,8 +1199,24 @@ fn load_known(path: &str) -> HashSet<String> {
         .unwrap_or_default()
 }
 
+unsafe extern "C" {
+    fn mallopt(param: i32, value: i32) -> i32;
+}
+
 /// Entry of the child process (`c07 --child ...`).
 pub fn child_main(args: &vcore::Args) -> i32 {
+    // One malloc arena, large requests served from the heap instead of mmap/munmap pairs, no eager
+    // trimming: a decoder thread is created per allocation-cap event and inputs / decoded values are
+    // allocated and freed hundreds of thousands of times; with the defaults the resulting
+    // mmap/munmap/mprotect traffic (TLB shoot-downs) costs more system time than the decoding when 16
+    // shards run side by side. Purely a property of the underlying system allocator: what the
+    // counting wrapper records is unaffected.
+    unsafe {
+        mallopt(-8, 1); // M_ARENA_MAX
+        mallopt(-3, 32 << 20); // M_MMAP_THRESHOLD
+        mallopt(-1, 256 << 20); // M_TRIM_THRESHOLD
+        mallopt(-2, 16 << 20); // M_TOP_PAD
+    }
     let stack = args.u64("stack-mib", 8) as usize;
     let args2 = args.clone();
     let h = std::thread::Builder::new()
